@@ -108,6 +108,25 @@ CLAIMED["C18"] = dict(
     design="DESIGN.md section 6, C18",
 )
 
+CLAIMED["C16"] = dict(
+    text="Lean 4 theorems over a function-by-function model of the vendored engine (diff_main, diff_compute, diff_halfMatch, "
+    "diff_lineMode with linesToChars/charsToLines and the re-diff loop, diff_cleanupMerge, diff_cleanupSemantic with the lossless "
+    "and overlap passes, diff_commonPrefix/Suffix/Overlap; diff_bisect is an oracle parameter returning any split point or none, "
+    "which covers the deadline paths): for every pair of strings, every fuel and every oracle the segment list before and after "
+    "semantic clean-up rebuilds the first text from equal+delete and the second from equal+insert (C16_main_reconstructs, "
+    "C16_main_reconstructs_nolines, C16_merge_reconstructs, C16_semantic_reconstructs, C16_diff_and_clean); with line mode on the "
+    "theorem needs the two texts to have at most 55 293 characters together (line indices are encoded as characters). "
+    "_join_delete_insert keeps both texts (C16_join_keeps_both_texts). PARTIAL: 'no empty segment' is not proved - it is false of the "
+    "engine in line mode (known finding E1) - and the re-alignment's reconstruction up to open/close placeholders is not proved; "
+    "both are decided per run by oracles on the real engine and formatter. Model tied to the code by unit U8: every string pair over "
+    "{a, b, space} up to length 4 (quick) / 5 (thorough) plus random sentences, multi-line texts (line mode) and placeholder strings.",
+    note="Trusted: Lean kernel and standard axioms; the recorded bisect split points (engine subclassed in the harness, clock frozen); "
+    "ASCII character classes in the boundary score.",
+    technique="Lean 4 proof (reconstruction invariant through every pass, induction on fuel for the mutual recursion) + exhaustive "
+    "small-alphabet and random model/code differential correspondence + reconstruction / empty-segment / realign oracles",
+    design="DESIGN.md section 6, C16",
+)
+
 CLAIMED["C14"] = dict(
     text="Lean 4 theorems: on documents whose elements have either child nodes or text, the tree produced by the blank-stripping "
     "parser does not depend on the indentation (any scheme of blank strings, any depth; C14_strip_reindent); the table deciding "
